@@ -39,6 +39,11 @@ def shards(tier, seed):
 
 # ------------------------------------------------------------------------------------------------ (a) schedules
 def schedule_world(seed, strategy, scratch, **kw):
+    from zv import mvccload
+    return mvccload.rerun_on_watchdog(_schedule_world)(seed, strategy, scratch, **kw)
+
+
+def _schedule_world(seed, strategy, scratch, **kw):
     import itertools
     import transaction
     import base64
@@ -57,7 +62,9 @@ def schedule_world(seed, strategy, scratch, **kw):
     d = os.path.join(scratch, 'w')
     shutil.rmtree(d, ignore_errors=True)
     os.makedirs(d)
-    db = mvccload.make_db('file', d, FSM)
+    blobs = kw.pop('blobs', False)
+    db = mvccload.make_db('file-blobs' if blobs else 'file', d, FSM)
+    blob_toks = {}
     # optional: the fault_k-th mutating raw operation on the .pack file fails (EIO) while committers run
     fault_k = kw.pop('fault_k', None)
     fired = []
@@ -110,6 +117,12 @@ def schedule_world(seed, strategy, scratch, **kw):
                     # some transactions are longer than a file read buffer: the packer's reads of their tail reach into whatever
                     # a committer is writing behind them
                     c.root()['c%d' % cells[0]].pad = 'p' * rnd.choice([0, 0, 9000, 20000])
+                    if blobs:
+                        # a new blob (a new directory in the blob area, next to the ones a pack is clearing away) or none
+                        from ZODB.blob import Blob
+                        withb = rnd.random() < 0.7
+                        c.root()['c%d' % cells[0]].blob = Blob(tok.encode()) if withb else None
+                        blob_toks[tok] = (cells[0], withb)
                     tm.get().note(tok)
                     tm.commit()
                     oks.append((s.log('commit_ret', name), tok, cells, c.root()['c%d' % cells[0]]._p_serial))
@@ -173,8 +186,9 @@ def schedule_world(seed, strategy, scratch, **kw):
     s.spawn('u', undoer)
     s.spawn('r', reader)
     s.spawn('p', packer('p'))
-    s.spawn('p2', packer('p2'))
-    s.spawn('p3', packer('p3'))       # (a refused pack must not make room for a third one)
+    if not blobs:                     # (worlds with blobs: one packer, so that orderings can name the thread that packs)
+        s.spawn('p2', packer('p2'))
+        s.spawn('p3', packer('p3'))       # (a refused pack must not make room for a third one)
     try:
         ok = s.run(60)
     finally:
@@ -222,7 +236,7 @@ def schedule_world(seed, strategy, scratch, **kw):
         if reopen:
             db.close()
             import ZODB
-            db = ZODB.DB(FSM.FileStorage(d + '/Data.fs'))
+            db = ZODB.DB(FSM.FileStorage(d + '/Data.fs', blob_dir=(d + '/blobs') if blobs else None))
         it = db.storage.iterator()
         descs = [t.description for t in it]
         it.close()
@@ -240,6 +254,11 @@ def schedule_world(seed, strategy, scratch, **kw):
                     got = c.root()['c%d' % i].tok
                     if got != exp:
                         viol.append(('final-state-differs:lost-or-wrong-commit', 'c%d' % i, exp, got, reopen))
+                    elif blobs and exp in blob_toks and blob_toks[exp][0] == i:
+                        b = c.root()['c%d' % i].blob
+                        gotb = None if b is None else b.open('r').read()
+                        if gotb != (exp.encode() if blob_toks[exp][1] else None):
+                            viol.append(('final-state-differs:blob-of-a-successful-commit', 'c%d' % i, exp, repr(gotb)[:60], reopen))
             except Exception as e:
                 viol.append(('final-read-raises-%s' % type(e).__name__, repr(e)[:120], reopen))
             c.close()
@@ -626,8 +645,67 @@ def fault_pack_case(sh, s, d, tier, case):
     return trace
 
 
+def crafted_blob_abort_during_copy(sh, d, case):
+    """regression scenario: with pack_keep_old (the default) the pack finally walks the blob directory, without any lock, to link
+    the remaining files into <blobs>.old; a blob transaction that stores its file and aborts while the walk is under way (here: from
+    a wrapper around os.walk, in the packing thread, where no lock is held) must not make the pack fail"""
+    import ZODB
+    from zv import recfs, objs
+    from ZODB.blob import Blob
+    from ZODB.Connection import TransactionMetaData
+    from ZODB.utils import z64
+    FSM = recfs.install()
+    recfs.LOG.reset()
+    recfs.LOG.enabled = False
+    st = FSM.FileStorage(os.path.join(d, 'Data.fs'), blob_dir=os.path.join(d, 'blobs'))
+    db = ZODB.DB(st)
+    with db.transaction() as c:
+        c.root()['keep'] = Blob(b'keep')
+        c.root()['g'] = Blob(b'garbage')
+    with db.transaction() as c:
+        del c.root()['g']
+    with db.transaction() as c:
+        data = st.load(c.root()['keep']._p_oid)[0]
+    state = {}
+
+    class WalkProxy:
+        def __getattr__(self, n):
+            return getattr(recfs.PROXY, n)
+
+        def walk(self, top):
+            for tup in os.walk(top):
+                if 't' not in state:
+                    t = state['t'] = TransactionMetaData()
+                    st.tpc_begin(t)
+                    fn = os.path.join(d, 'newblob')
+                    with open(fn, 'wb') as f:
+                        f.write(b'new')
+                    oid = st.new_oid()
+                    st.storeBlob(oid, z64, data, fn, '', t)
+                    state['dir'] = os.path.abspath(st.fshelper.getPathForOID(oid))
+                elif 'aborted' not in state and os.path.abspath(tup[0]) == state['dir'] and tup[2]:
+                    st.tpc_abort(state['t'])          # the file the walk has just listed goes away
+                    state['aborted'] = 1
+                yield tup
+    FSM.os = WalkProxy()
+    try:
+        db.pack()
+    except Exception as e:
+        sh.violation('c08:blobs:pack-fails-when-a-blob-transaction-aborts-during-its-keep-old-copy',
+                     {'crafted': True, 'exc': '%s: %s' % (type(e).__name__, str(e)[:60])}, case)
+    finally:
+        FSM.os = recfs.PROXY
+    sh.count('crafted_blob_abort_during_pack_copy', 1 if state.get('aborted') else 0)
+    with db.transaction() as c:
+        if c.root()['keep'].open().read() != b'keep':
+            sh.violation('c08:blobs:kept-blob-unreadable-after-pack', {'crafted': True}, case)
+    db.close()
+
+
 def crafted(sh, d, case):
     """deterministic witnesses for the two-rename window of pack (fixed little history, no generator involved)"""
+    if case['crafted'] == 'blob-abort-during-keep-old-copy':
+        return crafted_blob_abort_during_copy(sh, d, case)
     import errno
     import ZODB
     from zv import recfs, clock, objs
@@ -706,6 +784,11 @@ def run_shard(params):
     i = 0
     sweep = None
     pos = 0
+    bsweep = None
+    bpos = 0
+    if params['shard'] in (3, 7):
+        cc = {'crafted': 'blob-abort-during-keep-old-copy'}
+        guarded(sh, 'c08', cc, lambda: crafted(sh, sh.fresh_dir('p'), cc))
     while sh.time_left():
         i += 1
         seed = (s0 + i * 104729) & 0x7fffffff
@@ -739,6 +822,38 @@ def run_shard(params):
                     kw['pct_depth'] = 2
             if mode != 'park' and i % 3 == 0:
                 kw['fault_k'] = rnd.randrange(1, 40)
+            if mode != 'park' and i % 4 == 1:
+                kw['blobs'] = True                  # blob directory: the pack clears directories while committers make new ones
+                sh.count('worlds_with_blobs')
+                if mode != 'free':
+                    # one thread is held back at one of its raw I/O calls or blob-layer statements (each mkdir of a makedirs is
+                    # one) until everybody else has finished or is blocked ("park"), or a directory-changing call of the packer is
+                    # ordered between a committer's previous step and one of the committer's directory-changing calls ("rdv");
+                    # half of the worlds take a pair in which the committer's call creates a directory (in the tree the pack prunes)
+                    if bsweep is None:
+                        dry = schedule_world(params['seed'] + 1, 'pct', sh.scratch, pct_depth=1, blobs=True)
+                        locs = sorted((k + (o,)) for k, n in (dry.get('locs') or {}).items() if k[1] in ('io', 'blob.py')
+                                      for o in range(1, min(n, 6) + 1))
+                        random.Random(params['seed']).shuffle(locs)
+                        locs.sort(key=lambda l: l[1] != 'io')
+                        pa = [('p', 'io', k, o) for k, n in (('rmdir', 2), ('rename', 4), ('remove', 2), ('mkdir', 3)) for o in range(1, n + 1)]
+                        wb = [(w, 'io', k, o) for w in ('w0', 'w1') for k, n in (('mkdir', 2), ('rename', 2), ('remove', 1)) for o in range(1, n + 1)]
+                        hot = [(a_, b_) for a_ in pa for b_ in wb if b_[2:] == ('mkdir', 1)]
+                        rest = [(a_, b_) for a_ in pa for b_ in wb if b_[2:] != ('mkdir', 1)]
+                        random.Random(params['seed'] + 1).shuffle(hot)
+                        random.Random(params['seed'] + 2).shuffle(rest)
+                        k_ = params['shard'] // 4
+                        bsweep = {'hot': hot[k_::4] or hot, 'rest': rest[k_::4] or rest, 'park': locs[k_::4]}
+                    which_ = ('hot', 'hot', 'rest', 'park')[bpos % 4]
+                    lst = bsweep[which_]
+                    if lst:
+                        strategy = 'pct'
+                        x = lst[(bpos // 4) % len(lst)]
+                        kw = {'blobs': True, ('park' if which_ == 'park' else 'rdv'): x}
+                        sh.count('blob_world_locations_parked' if which_ == 'park' else 'blob_world_io_pairs_ordered')
+                        if which_ == 'park':
+                            seed = params['seed'] + 1
+                    bpos += 1
             case = {'part': 'schedule', 'seed': seed, 'strategy': strategy, 'kw': {k: (list(v) if isinstance(v, tuple) else v) for k, v in kw.items()}}
             try:
                 out = schedule_world(seed, strategy, sh.scratch, **dict(kw))
@@ -748,6 +863,7 @@ def run_shard(params):
                 sh.case(None)
                 continue
             sh.count('schedules')
+            sh.count('wall_clock_watchdog_reruns', out.get('watchdog_reruns', 0))
             if out.get('fault_fired'):
                 sh.count('schedules_with_io_fault_in_concurrent_pack')
                 if out.get('fault_reported'):
